@@ -131,7 +131,7 @@ def _run(seed, tier, lean) -> Result:
     res = run_histories('C11', seed, tier, lean, WEIGHTS, step_oracle,
                         lambda kinds, ops: any(o['k'] in ('remove_attacker', 'undo') for o in ops) and
                                            any(o['k'] == 'add_attacker' and len(o['reached']) >= 2 for o in ops),
-                        quick_n=400, thorough_n=2400)
+                        quick_n=400, thorough_n=2400, gen_every=2)    # (deep copies + reloads: every second history gets the generated-code column)
     res.rule = ('random histories of compromise/undo (from either side), attach, add/remove attacker over several '
                 'attackers; after every step the mirror relation, idempotence of compromise, no-op undo, clean '
                 'removal and exact attachment are checked on the real objects and the state is compared with the '
